@@ -218,4 +218,51 @@ Section Batch.
     - intros q r Hr. apply (res_ok_mono st st'); [unfold st'; cbn; lia | exact Hg |].
       unfold st' in Hr; cbn in Hr. destruct (Nat.eq_dec q p) as [->|N]; [rewrite upd_same in Hr; cbn in Hr; apply (bv_res0 p r Hr) | rewrite upd_other in Hr by exact N; apply (bv_res0 q r Hr)].
   Qed.
+
+  Lemma bpc_ok_rtclaim st st' pc :
+    b_head st' = b_head st -> b_whead st' = b_whead st -> b_tail st' = b_tail st -> b_slot st' = b_slot st ->
+    b_gval st' = b_gval st -> b_rtail st < b_rtail st' ->
+    bpc_ok st pc -> bpc_ok st' pc.
+  Proof.
+    intros E1 E2 E3 E4 E5 Ht K.
+    destruct pc; cbn [bpc_ok] in *; rewrite ?E1, ?E2, ?E3, ?E4, ?E5; try exact K; try lia;
+      repeat match goal with H : _ /\ _ |- _ => destruct H end;
+      repeat match goal with |- _ /\ _ => split end; try lia; try assumption.
+  Qed.
+
+  (* (C4) p claims [read_tail, read_tail+rn) *)
+  Lemma binv_claim_rtail st p one n rn :
+    BInv st -> t_pc (b_thr st p) = Some (BPopCasRT one n (b_rtail st) rn) ->
+    BInv (b_goto (mkB (b_head st) (b_tail st) (b_whead st) (b_rtail st + rn) (b_slot st) (b_gt st) (b_grt st + rn)
+                      (b_gval st) (b_gwho st) (b_thr st))
+                 p (BPopRd one (b_rtail st) rn (b_grt st))).
+  Proof.
+    intros I Epc. pose proof (bv_pc st I p _ Epc) as K. cbn [bpc_ok] in K. destruct K as (K1 & K2 & K3).
+    specialize (K3 eq_refl).
+    set (st' := b_goto _ p _).
+    pose proof I as I0. destruct I. destruct bv_ord0 as (O1 & O2 & O3 & O4 & O5).
+    constructor; try assumption.
+    - unfold st'; cbn. lia.
+    - unfold st'; cbn. repeat split; lia.
+    - intros q pcq E. unfold st' in E; cbn in E. destruct (Nat.eq_dec q p) as [->|N].
+      + rewrite upd_same in E. cbn in E. inversion E as [Ex]. cbn [bpc_ok]. unfold st'; cbn. repeat split; lia.
+      + rewrite upd_other in E by exact N. apply (bpc_ok_rtclaim st st'); try reflexivity; try (unfold st'; cbn; lia).
+        apply (bv_pc0 q pcq E).
+    - intros q. unfold st'; cbn. destruct (Nat.eq_dec q p) as [->|N]; [rewrite upd_same; apply bv_ops0 | rewrite upd_other by exact N; apply bv_ops0].
+    - intros q1 q2 pc1 pc2 a k b l N E1 E2 H1 H2. unfold st' in E1, E2; cbn in E1, E2.
+      assert (A1 : q1 <> p) by (intros Eq; rewrite Eq, upd_same in E1; cbn in E1; inversion E1 as [Ex]; rewrite <- Ex in H1; discriminate).
+      assert (A2 : q2 <> p) by (intros Eq; rewrite Eq, upd_same in E2; cbn in E2; inversion E2 as [Ex]; rewrite <- Ex in H2; discriminate).
+      rewrite upd_other in E1 by exact A1. rewrite upd_other in E2 by exact A2. apply (bv_wdisj0 q1 q2 pc1 pc2 a k b l N E1 E2 H1 H2).
+    - intros q1 q2 pc1 pc2 a k b l N E1 E2 H1 H2. unfold st' in E1, E2; cbn in E1, E2.
+      destruct (Nat.eq_dec q1 p) as [Eq1|N1]; destruct (Nat.eq_dec q2 p) as [Eq2|N2]; try (exfalso; congruence).
+      + rewrite Eq1, upd_same in E1. cbn in E1. inversion E1 as [Ex]. rewrite <- Ex in H1. cbn in H1. inversion H1.
+        rewrite upd_other in E2 by exact N2. pose proof (bv_pc0 q2 pc2 E2) as K.
+        destruct pc2; cbn in H2; try discriminate; inversion H2; cbn [bpc_ok] in K; right; lia.
+      + rewrite Eq2, upd_same in E2. cbn in E2. inversion E2 as [Ex]. rewrite <- Ex in H2. cbn in H2. inversion H2.
+        rewrite upd_other in E1 by exact N1. pose proof (bv_pc0 q1 pc1 E1) as K.
+        destruct pc1; cbn in H1; try discriminate; inversion H1; cbn [bpc_ok] in K; left; lia.
+      + rewrite upd_other in E1 by exact N1. rewrite upd_other in E2 by exact N2. apply (bv_rdisj0 q1 q2 pc1 pc2 a k b l N E1 E2 H1 H2).
+    - intros q r Hr. unfold st' in Hr; cbn in Hr.
+      destruct (Nat.eq_dec q p) as [->|N]; [rewrite upd_same in Hr; cbn in Hr; apply (bv_res0 p r Hr) | rewrite upd_other in Hr by exact N; apply (bv_res0 q r Hr)].
+  Qed.
 End Batch.
